@@ -14,7 +14,7 @@ from props import _simlib as S
 
 
 from props._c16_snap import snap, close
-from props._c16_fresh import fresh
+from props._c16_fresh import fresh, assert_same_tree, TreeChanged
 from props import _c16_pulses as PN
 from props import _c16_args as AR
 
@@ -320,6 +320,7 @@ def oracle_qpure(w, queries=None, fresh_ref=True):
                 refs = refs[1] if refs[0] == "ok" else {}
             ref = ("ok", refs[name]) if name in refs else ("none",)
             if ref[0] == "ok" and not close(first, ref[1]):
+                assert_same_tree()
                 return True, (f"query {name}: the result differs from the same query on an equal circuit in a new process "
                               f"in which nothing was called before (earlier calls of this process left state behind)"
                               + _first_diff(first, ref[1]))
@@ -646,6 +647,9 @@ def make_processor(kind, n):
         return LinearSpinChain(n)
     if kind == "circular":
         return CircularSpinChain(n)
+    if kind == "scq":
+        from qutip_qip.device import SCQubits
+        return SCQubits(n)
     return DispersiveCavityQED(n, num_levels=2)
 
 
@@ -653,6 +657,9 @@ def make_compiler(kind, proc, n):
     from qutip_qip.compiler import SpinChainCompiler, CavityQEDCompiler
     if kind == "cqed":
         return CavityQEDCompiler(n, proc.params)
+    if kind == "scq":
+        from qutip_qip.compiler import SCQubitsCompiler
+        return SCQubitsCompiler(n, proc.params)
     return SpinChainCompiler(n, proc.params, setup=kind)
 
 
@@ -679,9 +686,10 @@ def args_tokens_of(compiler):
     """the compiler's persistent configuration as model tokens (defaults omitted)"""
     out = []
     inv = {v: k for k, v in SHAPES.items()}
-    if compiler.args.get("shape") != "rectangular":
+    scq = type(compiler).__name__ == "SCQubitsCompiler"       # its defaults: shape hann, 101 samples
+    if compiler.args.get("shape") != ("hann" if scq else "rectangular"):
         out.append((0, inv[compiler.args["shape"]]))
-    if compiler.args.get("num_samples") is not None:
+    if compiler.args.get("num_samples") != (101 if scq else None):
         out.append((1, int(compiler.args["num_samples"])))
     return sorted(out)
 
@@ -709,6 +717,65 @@ def pulses_snap(proc):
     return snap(out)
 
 
+def analytic_U(proc):
+    """the propagators run_analytically() returns (the last one is the global phase), as dense matrices"""
+    try:
+        us = proc.run_analytically()
+    except Exception as e:
+        return ("exc", type(e).__name__)
+    return [np.asarray(u.full()) for u in us]
+
+
+def phase_on_empty(repo, kind):
+    """does load_circuit overwrite global_phase also when the compiled circuit needs no pulse (early return of
+    ModelProcessor.load_circuit)?  Source reading cross-checked by behaviour."""
+    import ast as _ast
+    from vlib.core import TranslatorError
+    if kind == "scq":
+        return True              # SCQubits never stores a phase (global_phase stays 0): the flag is immaterial
+
+    def assigns_phase(node):
+        return isinstance(node, _ast.Assign) and any(
+            isinstance(t, _ast.Attribute) and t.attr == "global_phase" and isinstance(t.value, _ast.Name)
+            and t.value.id == "self" for t in node.targets)
+
+    def method(rel, cls, name):
+        tree = _ast.parse(open(paths.REPO + "/" + rel).read()) if repo is None else _ast.parse(open(repo + "/" + rel).read())
+        for node in _ast.walk(tree):
+            if isinstance(node, _ast.ClassDef) and node.name == cls:
+                for f in node.body:
+                    if isinstance(f, _ast.FunctionDef) and f.name == name:
+                        return f
+        raise TranslatorError(f"{cls}.{name} not found")
+
+    rel, cls = {"linear": ("src/qutip_qip/device/spinchain.py", "SpinChain"),
+                "circular": ("src/qutip_qip/device/spinchain.py", "SpinChain"),
+                "cqed": ("src/qutip_qip/device/cavityqed.py", "DispersiveCavityQED")}[kind]
+    sub = method(rel, cls, "load_circuit")
+    in_sub = any(assigns_phase(st) for st in sub.body)                  # top level: after super().load_circuit(...)
+    base = method("src/qutip_qip/device/modelprocessor.py", "ModelProcessor", "load_circuit")
+    in_base = False
+    for st in base.body:
+        if assigns_phase(st):
+            in_base = True
+            break
+        if isinstance(st, _ast.If) and any(isinstance(x, _ast.Return) for x in _ast.walk(st)):
+            # the early return: is the phase stored inside it?
+            if any(assigns_phase(x) for x in _ast.walk(st)):
+                in_base = True
+            break
+    a = in_sub or in_base
+    proc = make_processor(kind, 2)
+    proc.load_circuit(build_gate_circuit(2, [{"name": "SNOT", "targets": [0], "controls": None, "arg": None}]))
+    p1 = float(proc.global_phase)
+    proc.load_circuit(build_gate_circuit(2, []))
+    b = abs(float(proc.global_phase)) < 1e-12 or abs(p1) < 1e-12
+    if a != b:
+        raise TranslatorError(f"global_phase on the pulse-free path of load_circuit ({kind}): source reading ({a}) and "
+                              f"behaviour ({b}) differ")
+    return a
+
+
 def fresh_program(dev, circ, tokens, cache):
     """what a freshly constructed processor + compiler (configured with `tokens`) hold after loading `circ`"""
     key = (circ, tuple(tokens))
@@ -718,7 +785,8 @@ def fresh_program(dev, circ, tokens, cache):
         comp.args.update(args_dict(tokens))
         qc = build_gate_circuit(dev["n"], dev["circuits"][circ])
         r = proc.load_circuit(qc, compiler=comp)
-        cache[key] = {"result": snap(r), "pulses": pulses_snap(proc), "phase": float(proc.global_phase)}
+        cache[key] = {"result": snap(r), "pulses": pulses_snap(proc), "phase": float(proc.global_phase),
+                      "U": snap(analytic_U(proc)), "pulse_free": r[1] is None}
     return cache[key]
 
 
@@ -748,6 +816,10 @@ def run_device(dev):
         rec["circuits_unchanged"] = [snap(x) == s for x, s in zip(circuits, circ_snaps)]
         rec["comp"] = {"args": args_tokens_of(comp), "phase": float(comp.global_phase)}
         rec["proc"] = {"pulses": pulses_snap(proc), "phase": float(proc.global_phase)}
+        if c[0] == "load" and "exc" not in rec:
+            rec["U"] = snap(analytic_U(proc))
+        if c[0] == "pquery" and "exc" in rec:
+            rec["pq_exc"] = rec.pop("exc")          # compared with a fresh processor holding the same program
         recs.append(rec)
     return recs
 
@@ -804,14 +876,36 @@ PQUERIES = {"run_state": pq_run_state, "get_noisy_pulses": pq_noisy, "get_qobjev
 DEVICE_GATES_1Q = ["SNOT", "X", "RX", "RZ", "RY", "Z"]
 
 
+def rand_pulse_free(rng, n, kind):
+    """a circuit that needs no control pulse: empty, GLOBALPHASE gates only, rotations by the angle 0, IDLE only"""
+    r = rng.random()
+    if r < 0.3:
+        return []
+    if r < 0.6:
+        return [{"name": "GLOBALPHASE", "targets": None, "controls": None, "arg": rng.choice([0.3, -0.5, 1.0])}
+                for _ in range(rng.randint(1, 2))]
+    if r < 0.85:
+        return [{"name": rng.choice(["RX", "RY"] if kind == "scq" else ["RX", "RZ", "RY"]),
+                 "targets": [rng.randrange(n)], "controls": None, "arg": 0.0} for _ in range(rng.randint(1, 2))]
+    return [{"name": "IDLE", "targets": [rng.randrange(n)], "controls": None, "arg": rng.choice([0.5, 1.0])}]
+
+
 def rand_device(rng, max_calls=8):
-    kind = rng.choice(["linear", "circular", "cqed"])
-    n = rng.randint(1, 3) if kind != "circular" else rng.randint(2, 3)
+    kind = rng.choice(["linear", "linear", "circular", "circular", "cqed", "cqed", "scq"])
+    n = rng.randint(1, 3) if kind not in ("circular", "scq") else rng.randint(2, 3)
     circuits = []
     for _ in range(rng.randint(1, 3)):
         gs = []
         for _ in range(rng.randint(1, 4)):
-            if n >= 2 and rng.random() < 0.3:
+            if kind == "scq":
+                if rng.random() < 0.3:
+                    a = rng.randrange(n - 1)
+                    gs.append({"name": "CNOT", "targets": [a + 1], "controls": [a]})
+                else:
+                    nm = rng.choice(["RX", "RY", "X"])
+                    gs.append({"name": nm, "targets": [rng.randrange(n)], "controls": None,
+                               "arg": (rng.choice([0.25, 0.5, 1.0, -0.75]) * math.pi if nm != "X" else None)})
+            elif n >= 2 and rng.random() < 0.3:
                 a, b = rng.sample(range(n), 2)
                 nm = rng.choice(["CNOT", "ISWAP"])
                 gs.append({"name": "CNOT", "targets": [b], "controls": [a]} if nm == "CNOT"
@@ -821,6 +915,13 @@ def rand_device(rng, max_calls=8):
                 gs.append({"name": nm, "targets": [rng.randrange(n)], "controls": None,
                            "arg": (rng.choice([0.25, 0.5, 1.0, -0.75]) * math.pi if nm in ("RX", "RY", "RZ") else None)})
         circuits.append(gs)
+    # circuits that need no control pulse, loaded at any position of the history (load_circuit takes its early return:
+    # everything held for the previous circuit — pulses AND global phase — must go)
+    free = []
+    if rng.random() < 0.6:
+        for _ in range(rng.randint(1, 2)):
+            circuits.insert(rng.randrange(len(circuits) + 1), "FREE")
+        circuits = [rand_pulse_free(rng, n, kind) if c == "FREE" else c for c in circuits]
     calls = [("load", rng.randrange(len(circuits)), rng.random() < 0.7)]
     shaped = False
     for _ in range(rng.randint(1, max_calls - 1)):
@@ -836,7 +937,9 @@ def rand_device(rng, max_calls=8):
                 # a non-rectangular shape needs num_samples (otherwise the real compile raises TypeError)
                 # (continuous shapes are not supported by every CavityQEDCompiler routine: spin chains only)
                 a = [(1, rng.choice([5, 8, 9]))] + ([(0, rng.choice(sorted(SHAPES)))]
-                                                    if rng.random() < 0.8 and kind != "cqed" else [])
+                                                    if rng.random() < 0.8 and kind not in ("cqed", "scq") else [])
+                if kind == "scq":
+                    a = [(1, rng.choice([51, 81]))]
             calls.append(("compile", ci, a))
             if a and rng.random() < 0.7:
                 # the same program again, through the processor and through the compiler
@@ -844,8 +947,21 @@ def rand_device(rng, max_calls=8):
                 if rng.random() < 0.5:
                     calls.append(("load", ci, True))
         else:
-            calls.append(("pquery", rng.choice(sorted(PQUERIES))))
+            # (the numerical solver on a transmon register takes seconds: not in these histories)
+            calls.append(("pquery", rng.choice([q for q in sorted(PQUERIES)
+                                                if kind != "scq" or q not in ("run_state", "get_qobjevo")])))
     return {"kind": kind, "n": n, "circuits": circuits, "calls": calls}
+
+
+def device_empties(dev):
+    """which circuits take the early return of ModelProcessor.load_circuit (compiler returns coeffs = None), measured on
+    fresh objects"""
+    out = []
+    for gs in dev["circuits"]:
+        proc = make_processor(dev["kind"], dev["n"])
+        r = proc.load_circuit(build_gate_circuit(dev["n"], gs))
+        out.append(r[1] is None)
+    return out
 
 
 def device_phases(dev):
@@ -858,7 +974,7 @@ def device_phases(dev):
     return out
 
 
-def encode_device(dev, cfg, ncalls, phases):
+def encode_device(dev, cfg, ncalls, phases, empties=None, poe=True):
     calls = []
     for c in dev["calls"][:ncalls]:
         if c[0] == "pquery":
@@ -866,7 +982,10 @@ def encode_device(dev, cfg, ncalls, phases):
         else:
             calls.append(c)
     case = {"n": 1, "ncb": 0, "mode": "sv", "ops": [], "lists": [], "inits": [], "calls": calls}
-    return S.encode(case, cfg, (), phases)
+    line = S.encode(case, cfg, (), phases)
+    if empties is not None:
+        line += " empties=" + ",".join("1" if e else "0" for e in empties) + " poe=" + ("1" if poe else "0")
+    return line
 
 
 # ------------------------------------------------------------------------------------------
@@ -1151,6 +1270,25 @@ def oracle_device(dev):
     for j, (rec, c) in enumerate(zip(recs, dev["calls"])):
         if not all(rec["circuits_unchanged"]):
             return True, f"call {j} {c[0]} changed a circuit passed in"
+        if "pq_exc" in rec:
+            # a pulse query that raises: the used processor must raise what a fresh processor holding the same program
+            # raises (e.g. the numerical solver on a processor holding no pulse)
+            last = next((cc for cc in reversed(dev["calls"][:j]) if cc[0] == "load"), None)
+            if rec["pq_exc"].split(":")[0] in NOT_EVALUABLE or last is None:
+                return False, f"call {j} {c[0]} not evaluable: {rec['pq_exc']}"
+            jl = max(i for i, cc in enumerate(dev["calls"][:j]) if cc[0] == "load")
+            fproc = make_processor(dev["kind"], n)
+            fcomp = make_compiler(dev["kind"], fproc, n)
+            fcomp.args.update(args_dict(recs[jl]["comp"]["args"] if last[2] else []))
+            fproc.load_circuit(build_gate_circuit(n, dev["circuits"][last[1]]), compiler=fcomp)
+            try:
+                PQUERIES[c[1]](fproc, n)
+                fexc = None
+            except Exception as e:
+                fexc = type(e).__name__
+            if fexc != rec["pq_exc"].split(":")[0]:
+                return True, (f"call {j} {c[1]} raised {rec['pq_exc']} on the used processor, a fresh processor holding the "
+                              f"same program: {fexc or 'no exception'}")
         if "exc" in rec:
             if rec["exc"].split(":")[0] in NOT_EVALUABLE:
                 # runtime numerics (solver limits, singular systems): not a purity question
@@ -1181,13 +1319,19 @@ def oracle_device(dev):
                 cache[pkey] = ref[1] if ref[0] == "ok" else None
             pr = cache[pkey]
             if pr is not None and not (close(rec["result"], pr["result"]) and close(rec["proc"]["pulses"], pr["pulses"])):
+                assert_same_tree()
                 return True, (f"call {j} load_circuit(circuit {c[1]}, args {list(tokens)}): program / pulses differ from a "
                               f"fresh processor in a new process in which nothing was called before")
             if not close(rec["proc"]["pulses"], fr["pulses"]):
                 return True, f"call {j}: pulses held after load_circuit differ from a fresh processor"
             if abs(rec["proc"]["phase"] - fr["phase"]) > 1e-9:
-                return True, (f"call {j} load_circuit(circuit {c[1]}, compiler={'user' if c[2] else 'default'}): "
-                              f"global_phase {rec['proc']['phase']!r}, a fresh processor/compiler gives {fr['phase']!r}")
+                return True, (f"call {j} load_circuit(circuit {c[1]}{' = ' + json.dumps(dev['circuits'][c[1]]) if fr['pulse_free'] else ''}, "
+                              f"compiler={'user' if c[2] else 'default'}): "
+                              f"global_phase {rec['proc']['phase']!r}, a fresh processor/compiler gives {fr['phase']!r}"
+                              + (" (the circuit needs no control pulse)" if fr["pulse_free"] else ""))
+            if not close(rec["U"], fr["U"], 1e-9):
+                return True, (f"call {j} load_circuit(circuit {c[1]}): run_analytically() of the used processor differs "
+                              f"from a fresh processor's")
         if c[0] == "pquery" and j > 0:
             if not close(rec["proc"]["pulses"], recs[j - 1]["proc"]["pulses"]):
                 return True, f"call {j} {c[1]} changed the pulses held by the processor"
@@ -1203,6 +1347,13 @@ W_ALIAS = {"kind": "sim", "n": 1, "ncb": 1, "mode": "sv",
 W_PHASE = {"kind": "device", "kind_dev": "linear", "n": 1,
            "circuits": [[{"name": "SNOT", "targets": [0], "controls": None, "arg": None}]],
            "calls": [["load", 0, True], ["load", 0, True]]}
+W_PHASE_FREE = {"kind": "device", "kind_dev": "linear", "n": 2,
+                "circuits": [[{"name": "SNOT", "targets": [0], "controls": None, "arg": None}], []],
+                "calls": [["load", 0, False], ["load", 1, False], ["pquery", "run_analytically"]]}
+W_PHASE_FREE_CQED = {"kind": "device", "kind_dev": "cqed", "n": 2,
+                     "circuits": [[{"name": "X", "targets": [1], "controls": None, "arg": None}],
+                                  [{"name": "RZ", "targets": [0], "controls": None, "arg": 0.0}]],
+                     "calls": [["load", 0, True], ["load", 1, True]]}
 W_GETTER = {"kind": "getter", "n": 2, "ncb": 0, "mode": "sv",
             "ops": [{"g": 0, "q": [0], "cc": None, "ccv": 0}, {"g": 0, "q": [1], "cc": None, "ccv": 0}],
             "lists": [], "inits": [{"k": 0, "vecs": [[1, 0, 0, 0]]}], "calls": []}
@@ -1316,6 +1467,8 @@ class C16(PropertyCheck):
         "QipVerif.C16.no_alias",
         "QipVerif.C16.fresh_equivalent_edited",
         "QipVerif.C16.fresh_equivalent_load",
+        "QipVerif.C16.fresh_equivalent_load_pulsefree",
+        "QipVerif.C16.C16_counterexample_stale_phase_pulsefree",
         "QipVerif.C16.query_pure",
         "QipVerif.C16.transform_result_independent",
         "QipVerif.C16.noise_fresh_equivalent",
@@ -1347,7 +1500,9 @@ class C16(PropertyCheck):
                   "(args_unchanged); run/run_statistics return a function of the argument values and the RNG state only, "
                   "hence equal on repetition and equal to a freshly constructed simulator (repeat_equal, fresh_equivalent); "
                   "the lists referred to by results of different runs/records are pairwise different and new (no_alias); "
-                  "load_circuit leaves a used processor holding exactly what a fresh one would (fresh_equivalent_load); "
+                  "load_circuit leaves a used processor holding exactly what a fresh one would (fresh_equivalent_load; with the "
+                  "early return for circuits that need no pulse: fresh_equivalent_load_pulsefree, flag phaseOnEmpty read "
+                  "from the source); "
                   "results of transformations that end with the deep copy share no gate object and no targets/controls "
                   "list with their argument, so no in-place change of the result changes the argument "
                   "(transform_result_independent); noise objects keep their attributes and answer like fresh ones "
@@ -1465,13 +1620,23 @@ class C16(PropertyCheck):
             except Exception as e:
                 res.case({"device": dev}, nontrivial=False, tags=["stream=device", "unloadable=" + type(e).__name__])
                 continue
+            empties = device_empties(dev)
+            poe = phase_on_empty(paths.REPO, dev["kind"])
+            if not poe and not getattr(self, "_poe_reported", False):
+                self._poe_reported = True
+                res.disagree({"device": dev["kind"]}, "hypothesis of C16.fresh_equivalent_load_pulsefree: global_phase is "
+                             "overwritten on the early-return path of load_circuit", "phaseOnEmpty = false",
+                             "load_circuit keeps the previous circuit's global_phase when the new circuit needs no pulse: "
+                             "the hypothesis of fresh_equivalent_load_pulsefree is not met", W_PHASE_FREE)
             recs = run_device(dev)
-            lines = [encode_device(dev, cfg, k + 1, phases) for k in range(len(dev["calls"]))]
+            lines = [encode_device(dev, cfg, k + 1, phases, empties, poe) for k in range(len(dev["calls"]))]
             outs = drv.run(lines)
             cache = {}
             inp = {"device": dev["kind"], "n": dev["n"], "circuits": dev["circuits"], "calls": dev["calls"]}
             res.case(inp, nontrivial=len(dev["calls"]) >= 2,
-                     tags=["stream=device", "device=" + dev["kind"]] + sorted({"call=" + c[0] for c in dev["calls"]}))
+                     tags=["stream=device", "device=" + dev["kind"],
+                           "pulse-free-loads=%d" % sum(1 for c in dev["calls"] if c[0] == "load" and empties[c[1]])]
+                          + sorted({"call=" + c[0] for c in dev["calls"]}))
             w = {"kind": "device", "kind_dev": dev["kind"], "n": dev["n"], "circuits": dev["circuits"],
                  "calls": [list(c) for c in dev["calls"]]}
             for k, (rec, o) in enumerate(zip(recs, outs)):
@@ -1511,8 +1676,12 @@ class C16(PropertyCheck):
                         diff = f"call {k}: processor holds pulses although nothing was loaded"
                     if not diff and c[0] == "load":
                         ci, tokens = parse_tok(chunks[-1]["tok"])
-                        if not close(rec["result"], fresh_program(dev, ci, tokens, cache)["result"]):
+                        frp = fresh_program(dev, ci, tokens, cache)
+                        if not close(rec["result"], frp["result"]):
                             diff = f"call {k} {c}: returned program differs from (circuit {ci}, args {tokens})"
+                        elif not close(rec["U"], frp["U"], 1e-9):
+                            diff = (f"call {k} {c}: analytical propagator of what the processor holds differs from a fresh "
+                                    f"processor's for (circuit {ci}, args {tokens})")
                 if diff:
                     res.disagree(dict(inp, prefix=k + 1), o[:300], "see `what`", diff, w)
                     break
@@ -1737,7 +1906,7 @@ class C16(PropertyCheck):
     def _sweep(self, ctx, budget_s, count):
         rng = ctx.rng
         t0 = time.time()
-        fixed = (W_ALIAS, W_PHASE, W_GETTER, W_DRAW, W_QASM, W_SHAPE, W_SHARE_REV, W_SHARE_CHAIN, W_NOISE, W_SIMEDIT) + \
+        fixed = (W_ALIAS, W_PHASE, W_PHASE_FREE, W_PHASE_FREE_CQED, W_GETTER, W_DRAW, W_QASM, W_SHAPE, W_SHARE_REV, W_SHARE_CHAIN, W_NOISE, W_SIMEDIT) + \
             tuple(PN.FIXED)
         pend = pending()
         if "C16-6" not in pend:
@@ -1760,6 +1929,8 @@ class C16(PropertyCheck):
                     w = sibling_circuit(rng, w)
                 try:
                     f, d = oracle(w)
+                except TreeChanged:
+                    raise
                 except Exception as e:
                     f, d = False, "not applicable: " + repr(e)[:100]
                 if f:
@@ -1798,6 +1969,8 @@ class C16(PropertyCheck):
                 w = rand_simedit(rng)
                 try:
                     f, d = oracle(w)
+                except TreeChanged:
+                    raise
                 except Exception as e:
                     f, d = False, "not applicable: " + repr(e)[:100]
                 if f:
@@ -1811,6 +1984,8 @@ class C16(PropertyCheck):
                 if w is not None:
                     try:
                         f, d = oracle(w)
+                    except TreeChanged:
+                        raise
                     except Exception as e:
                         f, d = False, "not applicable: " + repr(e)[:100]
                     if f:
@@ -1821,6 +1996,8 @@ class C16(PropertyCheck):
                 try:
                     with contextlib.redirect_stdout(io.StringIO()):
                         f, d = oracle(w)
+                except TreeChanged:
+                    raise
                 except Exception as e:
                     f, d = False, "not applicable: " + repr(e)[:100]
                 if f:
@@ -1840,6 +2017,8 @@ class C16(PropertyCheck):
                      "calls": [list(c) for c in dev["calls"]]}
             try:
                 f, d = oracle(w)
+            except TreeChanged:
+                raise
             except Exception as e:
                 f, d = False, "not applicable: " + repr(e)[:100]
             if f:
